@@ -27,12 +27,13 @@ def run_demo(root, demo):
 def main():
     pid, k = sys.argv[1], sys.argv[2]
     checks = sys.argv[3:] or [pid]
-    src = "/tmp/seed/%s-out" % pid
+    src = os.environ.get("SEED_SRC") or "/tmp/seed/%s-out" % pid
+    tag = os.environ.get("SEED_TAG", "")
     patch = os.path.join(src, "patch%s.diff" % k)
     demos = glob.glob(os.path.join(src, "demo%s.*" % k))
     demo = [d for d in demos if d.endswith((".c", ".sh"))][0]
     T = tempfile.mkdtemp(prefix="verif-seed-")
-    res = {"id": "%s-%s" % (pid, k), "property": pid}
+    res = {"id": "%s%s-%s" % (tag, pid, k), "property": pid}
     try:
         clean, mut = os.path.join(T, "clean"), os.path.join(T, "mut")
         os.makedirs(clean); os.makedirs(mut)
@@ -63,7 +64,7 @@ def main():
                 det[c]["stderr_tail"] = r.stderr[-800:]
         res["checks"] = det
         res["detected_by"] = sorted(c for c, d in det.items() if d["verdict"] == "VIOLATION")
-        out_dir = "/verif/seeded/%s-%s" % (pid, k)
+        out_dir = "/verif/seeded/%s%s-%s" % (tag, pid, k)
         os.makedirs(out_dir, exist_ok=True)
         shutil.copy(patch, os.path.join(out_dir, "patch.diff"))
         shutil.copy(demo, os.path.join(out_dir, os.path.basename(demo).replace("demo%s" % k, "demo")))
